@@ -51,7 +51,7 @@ theorem Token.inside_of_B {len : Nat} {t : Token} (h : t.insideB len = true) : t
   | text t => simpa [Token.insideB, Token.Inside, StrSpan.insideB, StrSpan.Inside] using h
   | cdata t sp => simpa [Token.insideB, Token.Inside, StrSpan.insideB, StrSpan.Inside] using h
 
-def abutB (p l : StrSpan) : Bool := decide (p.text = []) || decide (p.stop + 1 = l.start)
+def abutB (p l : StrSpan) : Bool := (decide (p.text = []) && decide (p.start = 0)) || decide (p.stop + 1 = l.start)
 
 def Token.abutsB : Token → Bool
   | .elementStart p l _ => abutB p l
